@@ -24,6 +24,16 @@ func registerAll() {
 	reg("G4", "pool discipline: after a non-deferred put no use of the object or its aliases is reachable; with a deferred put no alias is returned, stored, sent or captured", ruleG4)
 	reg("G5", "no package-level variable is written by a function reachable from the API after init", ruleG5)
 
+	reg("R4", "notify-parent: every exported mutator of Array/OrderedMap (computed from may-effects on slab state) calls notifyParentIfNeeded on every success path (extra-data-only mutators may instead store the standalone root on the not-inlined edge)", ruleR4)
+
+	reg("R5", "callback-install: every stored child handed out (StoredValue of a looked-up value) or stored (root.Set/Insert of a caller value) passes setCallbackWithChild on every success path with the container's inline limit; read-only iterators arm setMutationCallback", ruleR5)
+	reg("R7", "detached child is materialised: every Storable returned by an exported Array/OrderedMap method is the result of uninlineStorableIfNeeded", ruleR7)
+	reg("N1", "the mutableElementIndex entry of a removed/overwritten child is deleted, guarded only by identity tests", ruleN1)
+	reg("N2", "parent-updater callbacks re-set the child only on paths that passed a ValueID.equal==true edge and after a fresh lookup", ruleN2)
+	reg("N3", "parentUpdater is assigned only by setParentUpdater and cleared only on the not-found edge of its own invocation", ruleN3)
+	reg("L8", "root-id preservation: whatever replaces Array/OrderedMap.root carries the id read from the previous root before any id change; ValueID independent of inlining", ruleL8)
+	reg("L10", "map element count: incrementCount exactly on (Set ok, no existing value), decrementCount exactly on Remove ok, no other writers", ruleL10)
+
 	const tCFG = "CFG path rules on go/ssa (must-precede, edge dominance, loop-iteration coverage, error-edge reachability)"
 	propTable["C03"] = &PropSpec{
 		ID:    "C03",
@@ -52,6 +62,20 @@ func registerAll() {
 		Explanation: "every goroutine body's transitive may-effect set has no write to storage, container, slab or global state and no write through captured variables; maps read by workers are written by the launcher only after a receive loop counted to the number of queued jobs; workers defer wg.Done, wg.Add(n) dominates a loop launching n workers, close(results) is deferred after wg.Wait, job/result channels are buffered; after a non-deferred put no use of the pooled object or an alias is reachable (up to re-definition), with a deferred put no alias escapes; objects are Reset before Pool.Put; no package variable can be written after init through any API function.",
 		NotDecided: "sequential equality of the results of a concurrent run (only through C04), races inside client callbacks, retention of pooled objects by callees.",
 		Technique:  "may-effect summaries over the call graph, dominance by drain-loop exits, alias taint for pooled objects",
+	}
+	propTable["C10"] = &PropSpec{
+		ID:    "C10",
+		Rules: []string{"R4", "R5", "L8"},
+		Explanation: "every exported mutator of Array/OrderedMap (computed from may-effects on slab state over a closure-granular call graph) calls notifyParentIfNeeded on every success path (extra-data-only mutators may store the standalone root on the not-inlined edge instead); every child handed out by lookup/mutable iteration or stored by Set/Insert passes setCallbackWithChild on every success path with the container's own inline limit (array: maxInlineArrayElementSize; map: maxInlineMapValueSize of that element's key storable size); read-only iterators arm the mutation callback; whatever replaces a container's root carries the id read from the previous root before any id change, and ValueID does not depend on the inlined state.",
+		NotDecided: "that the callback finds the right element after arbitrary parent restructuring (mutableElementIndex arithmetic), 'inlined exactly when it fits' (value-dependent), validity of ancestors.",
+		Technique:  "must-pass-through path rule over go/ssa CFG with interprocedural must-notify summaries; may-effect summaries to compute the mutator set; value-flow checks on callback arguments and root ids",
+	}
+	propTable["C11"] = &PropSpec{
+		ID:    "C11",
+		Rules: []string{"R7", "N1", "N2", "N3"},
+		Explanation: "every Storable returned by an exported Array/OrderedMap method is the result of uninlineStorableIfNeeded (so a detached inlined child becomes a stored standalone slab) and that helper uninlines both slab kinds; the mutableElementIndex entry of a removed/overwritten child is deleted, guarded only by identity tests; parent-updater callbacks re-set the child only on paths that passed the true edge of a ValueID.equal test and after a fresh lookup; parentUpdater is assigned only by setParentUpdater and cleared only on the not-found edge of its own invocation.",
+		NotDecided: "that re-validation compares the right element after arbitrary histories; that Uninline itself stores the slab (dirty-marking rules R1/R3', not yet decided in this revision).",
+		Technique:  "value-flow on return operands, control-dependence slices, edge-restricted reachability in callback closures",
 	}
 	propTable["C14"] = &PropSpec{
 		ID:    "C14",
